@@ -79,11 +79,23 @@ func buildExpression(data yaml.Node, path []string) (expressions.Expression, err
 	if data.Type() != yaml.TypeIDString {
 		return nil, fmt.Errorf("%s found on non-string node at %s", data.Tag(), strings.Join(path, " -> "))
 	}
-	expr, err := expressions.New(data.Value())
+	expr, err := compileExpression(data.Value())
 	if err != nil {
 		return nil, fmt.Errorf("failed to compile expression at %s (%w)", strings.Join(path, " -> "), err)
 	}
 	return expr, nil
+}
+
+// compileExpression reports a panic of the expression parser (it dereferences nil on some truncated
+// expressions) as a compilation error.
+func compileExpression(text string) (expr expressions.Expression, err error) {
+	defer func() {
+		if r := recover(); r != nil {
+			expr = nil
+			err = fmt.Errorf("the expression parser failed on %q (%v)", text, r)
+		}
+	}()
+	return expressions.New(text)
 }
 
 func buildOneOfExpressions(data yaml.Node, path []string) (any, error) {
